@@ -255,6 +255,52 @@ def gen_leaf():
     return "\n".join(out), errors
 
 
+def parse_rows():
+    """(line, class, printed form, re-parse of the printed form gives an identical instruction?, costs under program versions 1..8)"""
+    from tealer.teal.instructions.parse_instruction import parse_line
+    from tealer.teal.parse_teal import parse_teal
+    lines, fam, ctl = sample_lines()
+    rows = []
+    skip_cost = ('b ', 'bz ', 'bnz ', 'callsub ', 'switch', 'match', 'l:', '#pragma', 'retsub')
+    for l in lines + ctl + [f for f in fam if f.split()[0] in ('pushints', 'pushbytess', 'proto')] + ["dig 3", "cover 2", "uncover 2", "bury 2", "popn 2", "dupn 2", "frame_dig -1", "frame_bury 1"]:
+        try:
+            buf = io.StringIO()
+            with contextlib.redirect_stdout(buf), contextlib.redirect_stderr(buf):
+                i = parse_line(l)
+                if i is None: continue
+                txt = str(i)
+                j = parse_line(txt)
+                same = j is not None and type(j) is type(i) and str(j) == txt and j.stack_pop_size == i.stack_pop_size and j.stack_push_size == i.stack_push_size
+                costs = []
+                if not l.startswith(skip_cost):
+                    for v in range(1, 9):
+                        try:
+                            t = parse_teal(f"#pragma version {v}\n{l}\nint 1\nreturn\n")
+                            ins = t.instructions[1]
+                            costs.append(int(ins.cost))
+                        except BaseException:
+                            costs.append(999999)
+            rows.append((l, type(i).__name__, txt, same, costs))
+        except BaseException as e:  # noqa
+            rows.append((l, 'ERROR', type(e).__name__, False, []))
+    return rows
+
+
+def gen_parsetable():
+    rows = parse_rows()
+    out = ["/- REGENERATED on every run by harness/extract.py from /repo (do not edit). -/", "namespace Tealer.Generated", ""]
+    names = []
+    for k in range(0, len(rows), CHUNK):
+        nm = f"parseTable{k // CHUNK}"; names.append(nm)
+        out.append(f"def {nm} : List (String × String × Bool × List Nat) := [")
+        out.append(",\n".join(f"  ({lean_str(l)}, {lean_str(txt)}, {'true' if same else 'false'}, [{', '.join(str(c) for c in costs)}])" for (l, cls, txt, same, costs) in rows[k:k + CHUNK]))
+        out.append("]")
+    out.append("/-- (sample line, printed form, printed form parses back to an identical instruction, cost under program versions 1..8) -/")
+    out.append("def parseTableChunks : List (List (String × String × Bool × List Nat)) := [" + ", ".join(names) + "]")
+    out += ["", "end Tealer.Generated", ""]
+    return "\n".join(out), rows
+
+
 def regenerate():
     res = {'errors': [], 'files': [], 'changed': []}
     try:
@@ -264,6 +310,12 @@ def regenerate():
         res['op_rows'] = len(rows)
     except Exception as e:  # noqa
         res['errors'].append(f"OpTable: {type(e).__name__}: {e}")
+    try:
+        txt, prow = gen_parsetable()
+        if write_if_changed(os.path.join(GEN, 'ParseTable.lean'), txt): res['changed'].append('ParseTable.lean')
+        res['parse_rows'] = len(prow)
+    except Exception as e:  # noqa
+        res['errors'].append(f"ParseTable: {type(e).__name__}: {e}")
     try:
         if write_if_changed(os.path.join(GEN, 'Consts.lean'), gen_consts()): res['changed'].append('Consts.lean')
     except Exception as e:  # noqa
